@@ -15,15 +15,22 @@ import z3
 
 from . import theory as T
 
-Z3_TIMEOUT_MS = int(os.environ.get('PYVC_Z3_MS', '10000'))
-CVC5_TIMEOUT_MS = int(os.environ.get('PYVC_CVC5_MS', '20000'))
+Z3_TIMEOUT_MS = int(os.environ.get('PYVC_Z3_MS', '15000'))
+CVC5_TIMEOUT_MS = int(os.environ.get('PYVC_CVC5_MS', '45000'))
+
+
+_conj_cache = {}
 
 
 def vc_to_smt2(vc, extra_axioms=(), negate=True):
     s = z3.Solver()
     forms = list(vc.hyps) + [vc.goal]
-    for a in T.base_axioms():
-        s.add(a)
+    ax = T.base_axioms()
+    key = id(ax)
+    if _conj_cache.get('key') != key:
+        _conj_cache['key'] = key
+        _conj_cache['conj'] = z3.And(ax)
+    s.add(_conj_cache['conj'])      # one assertion: adding ~300 axioms one by one dominated the run time
     for a in extra_axioms:
         s.add(a)
     inst = T.instantiate(forms + list(extra_axioms))
@@ -104,6 +111,8 @@ def _run_cvc5(text, timeout_ms):
 
 
 GROUND_TIMEOUT_MS = int(os.environ.get('PYVC_GROUND_MS', '5000'))
+CAND_CVC5_MS = int(os.environ.get('PYVC_CAND_CVC5_MS', '20000'))
+CAND_Z3_MS = int(os.environ.get('PYVC_CAND_Z3_MS', '6000'))
 QUICK_Z3_MS = int(os.environ.get('PYVC_QUICK_Z3_MS', '2000'))
 
 
@@ -155,14 +164,18 @@ def solve_one(task):
         return name, 'unsat', {'backend': 'z3-ground', 'time': total, 'instances': ginfo.get('instances')}
     if want == 'reach':
         return name, gres, {'backend': 'z3-ground', 'time': total}
-    res, info = _run_z3(text, Z3_TIMEOUT_MS)
-    total += info.get('time', 0)
-    if res == 'unsat':
-        return name, 'unsat', {'backend': 'z3', 'time': total}
-    r2, i2 = _run_cvc5(text, CVC5_TIMEOUT_MS)
+    # cvc5 first (it decides the sequence-heavy obligations z3 leaves open in a few seconds), then a longer z3 attempt
+    # (shorter budgets when the relaxation already has a counter-model candidate: a refuted obligation must not cost a minute)
+    cvc5_ms = CVC5_TIMEOUT_MS if gres != 'sat' else min(CVC5_TIMEOUT_MS, CAND_CVC5_MS)
+    z3_ms = Z3_TIMEOUT_MS if gres != 'sat' else min(Z3_TIMEOUT_MS, CAND_Z3_MS)
+    r2, i2 = _run_cvc5(text, cvc5_ms)
     total += i2.get('time', 0)
     if r2 == 'unsat':
         return name, 'unsat', {'backend': 'cvc5', 'time': total}
+    res, info = _run_z3(text, z3_ms)
+    total += info.get('time', 0)
+    if res == 'unsat':
+        return name, 'unsat', {'backend': 'z3', 'time': total}
     out = {'backend': 'z3+cvc5', 'time': total, 'reason': 'z3: %s; cvc5: %s' % (
         info.get('reason', info.get('msg', res)), i2.get('reason', r2))}
     if gres == 'sat':
@@ -173,7 +186,7 @@ def solve_one(task):
     return name, 'unknown', out
 
 
-HARD_LIMIT_S = float(os.environ.get('PYVC_HARD_S', '90'))
+HARD_LIMIT_S = float(os.environ.get('PYVC_HARD_S', '150'))
 
 
 def _worker(task, conn):
